@@ -38,6 +38,10 @@ CHECKS = {
    technique="stateless depth-first exploration of all interleavings (preemption bound) of the real Datastore.Sync loop and its storeSyncMsg goroutines, compiled from instrumented sources, over the real cache, for every notification sequence of a bounded alphabet, write workers in {1,2,16} and validation on/off; final stores compared with a reference model that applies the notifications in channel order",
    text="A scripted target feeds every sequence of up to 2 (thorough 3) on-change notifications over a 14-message alphabet (scalar updates, two updates in one notification, a state leaf, JSON blobs at a list entry and at the list, a leaf-list sent as keys, deletes of a leaf / list entry / whole list, delete+update) and bracketed re-sync cycles (pre, START, up to two notifications, END, post; two cycles) through the datastore's own sync channel into the real Sync loop. Every cache call is a scheduling point, so the completion orders of concurrently processed notifications and of prune bracketing are enumerated. After the channel is drained and every write returned the CONFIG and STATE stores must equal the reference: latest notification per path wins, paths absent from a completed cycle are gone, state leaves are in the STATE store when validation is on, deletes remove exactly the element-wise subtree (prefix-related names mtu/mtu-ext, if/ifx, e1/e10 are preloaded).",
    note="The cache executes each call atomically; cycles are well bracketed; JSON blobs do not repeat the list keys of their path (the converter rejects that by design). Overtaking with more than one write worker is a recorded known finding, so the clean guarantee is for one write worker."),
+ "C17": dict(level="model_checking", engine="E4-sched", design="DESIGN.md §3 C17",
+   technique="stateless depth-first exploration of the interleavings of the real validator goroutines (pkg/tree, pkg/types and the bound schema client compiled from instrumented sources; preemption bound and a bound on non-default successor choices), each execution compared with the verdict of the sequential run and checked by a vector-clock happens-before race detector over the tracked field and map accesses of the tree structures",
+   text="Six (thorough eight) transactions chosen so that validators load defaults and running values on demand, follow leafrefs into sibling branches and into the running config, evaluate must expressions across branches and fail in several classes at once (must, leafref, optional leafref warning, pattern, range, min/max-elements, mandatory) run through the real Datastore.TransactionSet with concurrent validation. Every interleaving within the bounds of the per-child validator goroutines, the result channel and all childMap / LeafVariants / LeafEntry / cache / schema lock operations is executed; the error and warning sets per intent, the device payload and the resulting stores must equal those of the same transaction validated with DisableConcurrency, no execution may panic or deadlock, and the happens-before detector (go, Mutex, RWMutex, WaitGroup, Once, channel edges; field and map accesses of pkg/tree and pkg/types structs routed through the runtime by the instrumenter) must report no unsynchronised conflicting access.",
+   note="Sequential consistency; map iteration in the instrumented packages is made deterministic (key order) so that an execution is a function of the scheduler's choices; accesses the instrumenter cannot rewrite without changing meaning (non-addressable operands, address-taken fields) are not tracked; bounds are printed in the evidence (quick: 1 preemption, 1 non-default successor choice)."),
  "C19": dict(level="model_checking", engine="E4-sched", design="DESIGN.md §3 C19",
    technique="stateless depth-first exploration of all thread interleavings (preemption bound) and environment deviations (client cancellation, stream failure, ticker ticks at every point) of the real Subscribe / GetData / WatchDeviations handlers compiled from instrumented sources under a cooperative scheduler; deadlock, panic, leftover goroutines and waiting at rest are detected per execution",
    text="Datastore.Subscribe with 1..3 (thorough 4) subscriptions over 0..2 stored leaves, Server.GetData -> Datastore.Get in the four encodings with 1..3 paths, and Server.WatchDeviations run on a synchronous in-memory cache with a controllable stream whose Send is a scheduling point. The environment may cancel the client, make the stream fail (the next and all later Sends return an error) and fire every ticker, at every scheduling point within the deviation bound; a stalled consumer is a Send that blocks until the client is gone. In every execution the handler must return, every goroutine it started must have finished, nothing may panic (double close, send on closed channel) or deadlock, and after a stream failure or exhausted data the handler must not wait for the client's cancellation.",
@@ -102,7 +106,7 @@ for p in props:
 hooks_commits = subprocess.run(["git", "-C", "/repo", "log", "--format=%h %s", "--grep=^verif hooks"], capture_output=True, text=True).stdout.strip().splitlines()
 m = {
  "version": 1,
- "setup_cmd": "./build.sh && ./build-i.sh",
+ "setup_cmd": "./build.sh && ./build-i.sh && ./build-t.sh",
  "hooks": {
    "guard": "verif",
    "enable": "go build -tags verif (harness module /verif/harness with replace github.com/sdcio/data-server => /repo)",
